@@ -568,6 +568,48 @@ func sortsBeforeLastLoop(fd *ast.FuncDecl) bool {
 	return res
 }
 
+// refreshSortCall: what Refresh sorts and how: "<sorted expr> | <params of the less function> | <its return expression>"
+// (e.g. "names | i j | i < j"); "" when the first sort call of the function has another shape
+func refreshSortCall(fd *ast.FuncDecl) string {
+	if fd == nil {
+		return ""
+	}
+	for _, st := range fd.Body.List {
+		x, ok := st.(*ast.ExprStmt)
+		if !ok {
+			continue
+		}
+		ce, ok := x.X.(*ast.CallExpr)
+		if !ok {
+			continue
+		}
+		n := exprName(ce.Fun)
+		if !(strings.HasPrefix(n, "sort2.") || strings.HasPrefix(n, "sort.")) || len(ce.Args) != 2 {
+			continue
+		}
+		fl, ok := ce.Args[1].(*ast.FuncLit)
+		if !ok || len(fl.Body.List) != 1 {
+			return exprName(ce.Args[0]) + " | ? | ?"
+		}
+		rs, ok := fl.Body.List[0].(*ast.ReturnStmt)
+		if !ok || len(rs.Results) != 1 {
+			return exprName(ce.Args[0]) + " | ? | ?"
+		}
+		var ps []string
+		for _, f := range fl.Type.Params.List {
+			for _, nm := range f.Names {
+				ps = append(ps, nm.Name)
+			}
+		}
+		ret := "?"
+		if be, ok := rs.Results[0].(*ast.BinaryExpr); ok {
+			ret = exprName(be.X) + " " + be.Op.String() + " " + exprName(be.Y)
+		}
+		return exprName(ce.Args[0]) + " | " + strings.Join(ps, " ") + " | " + ret
+	}
+	return ""
+}
+
 func containsSortCall(fd *ast.FuncDecl) bool {
 	if fd == nil {
 		return false
@@ -697,6 +739,7 @@ func main() {
 	}
 	p("/-- app.App.run: the stage calls in order; each is followed by `return` on error -/\ndef runStages : List String := [%s]\n\n", strings.Join(qs, ", "))
 	p("def refreshSortsNames : Bool := %v\n", sortsBeforeLastLoop(findFunc(facFiles, "defaultFactory", "Refresh")))
+	p("def refreshSortCall : String := %s\n", lq(refreshSortCall(findFunc(facFiles, "defaultFactory", "Refresh"))))
 	p("def getMetasSorts : Bool := %v\n", containsSortCall(findFunc(supFiles, "defaultDefinitionRegistry", "GetMetas")))
 	p("def getSingletonNamesSorts : Bool := %v\n", containsSortCall(findFunc(supFiles, "registry", "GetSingletonNames")))
 	p("def allowCircularReferences : Bool := %s\n\n", allowCircular(facFiles))
